@@ -23,3 +23,8 @@ package processor
 //@   replay-in github.com/alephium/wormhole-fork/explorer-backend/guardiansets explorer_guardiansets_range.go.tmpl
 //@   at [call p.deduplicator.Apply]: assert [seen-key-is-the-message-id] hasFormat($arg1, "%d/%s/%d/%d", v.EmitterChain, v.EmitterAddress, v.TargetChain, v.Sequence)
 //@   at [p.messageQueue <- message]: assert [verified-against-named-set] guardianSet != nil && guardianSet.Index == v.GuardianSetIndex && len(v.Signatures) >= 2*len(guardianSet.Keys)/3 + 1 && vaa.specVerify(v, guardianSet.Keys)
+
+//@ func NewVAAGossipConsumer(guardianSets *guardiansets.GuardianSets, dedup *deduplicator.Deduplicator, messageQueue chan<- *Message, logger *zap.Logger) (c *vaaGossipConsumer)
+//@   props C19
+//@   ensures [as-passed] c != nil && c.guardianSets == guardianSets && c.deduplicator == dedup && c.messageQueue == messageQueue
+//@   modifies fresh vaaGossipConsumer.*
